@@ -2265,8 +2265,15 @@ class Head(Expr):
 
     def _simplify_down(self):
         if isinstance(self.frame, Elemwise):
+            # forward the requested number of partitions (``self.npartitions`` is
+            # the partition count of the result, always 1) and leave scalar
+            # (broadcast) operands alone
             operands = [
-                Head(op, self.n, self.npartitions) if isinstance(op, Expr) else op
+                (
+                    Head(op, self.n, self.operand("npartitions"))
+                    if isinstance(op, Expr) and op.ndim > 0
+                    else op
+                )
                 for op in self.frame.operands
             ]
             return type(self.frame)(*operands)
@@ -2370,8 +2377,9 @@ class Tail(Expr):
 
     def _simplify_down(self):
         if isinstance(self.frame, Elemwise):
+            # leave scalar (broadcast) operands alone
             operands = [
-                Tail(op, self.n) if isinstance(op, Expr) else op
+                Tail(op, self.n) if isinstance(op, Expr) and op.ndim > 0 else op
                 for op in self.frame.operands
             ]
             return type(self.frame)(*operands)
